@@ -3,8 +3,14 @@ import Glom.Lemmas.C01
 /-
   Helper lemmas for C18: Python slice semantics (`pySlice`), the sequence
   operations on the flat ops tuple, `walk_append` for C01's reference walk, and
-  the `eval(repr)` round trip (split / join of token lists, mutual induction
-  over arguments, items and steps).
+  the `eval(repr)` round trip: split / join of token lists; the displays of
+  every container kind, dict entries, slice objects; `Path(…)` texts and
+  `Path.__init__` (`parsePath_fmt`, stated over the induction hypotheses for the
+  steps); the mutual induction over arguments, items and steps
+  (`parseArg_fmt`, …); the reconstructed object prints the same (`fmtArg_norm`, …);
+  reprlib's limits: the truncation pass is the identity inside them
+  (`truncArg_of_fits`, …), normalising stays inside them (`fitsArg_norm`, …), larger
+  limits lose nothing either (`fitsArg_mono`, …); the facts (`wf_*`).
 -/
 namespace Glom.C18
 
@@ -2433,7 +2439,7 @@ mutual
     | .starstar, _ => by rw [truncStep]
     | .seg a, h => by
       rw [fitsStep] at h
-      rw [truncStep, truncArg_of_fits S F lim true 0 a h]
+      rw [truncStep, truncArg_of_fits S F lim lim.plainSeg lim.segLevel a h]
     | .item i, h => by
       rw [fitsStep] at h
       rw [truncStep, truncItem_of_fits S F lim i h]
@@ -2594,7 +2600,7 @@ mutual
     | .seg a, h => by
       rw [fitsStep] at h
       rw [normStep, fitsStep]
-      exact fitsArg_norm S F hF lim true 0 a h
+      exact fitsArg_norm S F hF lim lim.plainSeg lim.segLevel a h
     | .item i, h => by
       rw [fitsStep] at h
       rw [normStep, fitsStep]
@@ -2645,8 +2651,21 @@ theorem le_fields {a b : Limits} (h : a.le b = true) :
     a.maxset ≤ b.maxset ∧ a.maxfrozenset ≤ b.maxfrozenset ∧ a.maxstring ≤ b.maxstring ∧
     a.maxlong ≤ b.maxlong ∧ a.maxother ≤ b.maxother := by
   simp only [Limits.le, Bool.and_eq_true, decide_eq_true_eq] at h
-  obtain ⟨⟨⟨⟨⟨⟨⟨⟨h1, h2⟩, h3⟩, h4⟩, h5⟩, h6⟩, h7⟩, h8⟩, h9⟩ := h
+  obtain ⟨⟨⟨⟨⟨⟨⟨⟨⟨h1, h2⟩, h3⟩, h4⟩, h5⟩, h6⟩, h7⟩, h8⟩, h9⟩, _⟩ := h
   exact ⟨h1, h2, h3, h4, h5, h6, h7, h8, h9⟩
+
+theorem le_plainSeg {a b : Limits} (h : a.le b = true) : b.plainSeg = a.plainSeg := by
+  simp only [Limits.le, Bool.and_eq_true, beq_iff_eq] at h
+  exact h.2.symm
+
+theorem le_segLevel {a b : Limits} (h : a.le b = true) : a.segLevel ≤ b.segLevel := by
+  have := le_plainSeg h
+  have hl := (le_fields h).1
+  unfold Limits.segLevel
+  rw [this]
+  split
+  · exact Nat.le_refl 0
+  · exact hl
 
 theorem maxOf_le {a b : Limits} (h : a.le b = true) (k : Kind) : a.maxOf k ≤ b.maxOf k := by
   obtain ⟨_, h2, h3, h4, h5, h6, _, _, _⟩ := le_fields h
@@ -2771,7 +2790,8 @@ mutual
     | .starstar, _ => by rw [fitsStep]
     | .seg a, h => by
       rw [fitsStep] at h ⊢
-      exact fitsArg_mono S F lim lim' hle hS true 0 0 a (Nat.le_refl 0) h
+      rw [le_plainSeg hle]
+      exact fitsArg_mono S F lim lim' hle hS lim.plainSeg lim.segLevel lim'.segLevel a (le_segLevel hle) h
     | .item i, h => by
       rw [fitsStep] at h ⊢
       exact fitsItem_mono S F lim lim' hle hS i h
@@ -2829,16 +2849,17 @@ theorem wf_fmt {F : Facts} (h : WF F = true) : F.fmt = F1 := by
     rw [hf] at h1 h2 h3 h4; simp only at h1 h2 h3 h4; subst h1; subst h2; subst h3; subst h4; rfl
 
 /-- the limits the model reads are at least `minLimit` -/
-theorem wf_limits_ge {F : Facts} (h : WF F = true) : (Limits.uniform minLimit).le F.lim = true := by
+theorem wf_limits_ge {F : Facts} (h : WF F = true) :
+    (Limits.uniform minLimit F.lim.plainSeg).le F.lim = true := by
   have h' := (wf_parts h).2.2.2
   simp only [wfLimits, Bool.and_eq_true, List.all_eq_true] at h'
   have hn : ∀ n ∈ modelLimitNames, minLimit ≤ (F.limitTable.lookup n).getD 0 := by
     intro n hn
-    have := h'.1.1 n (by simp [hn])
+    have := h'.1.1.1 n (by simp [hn])
     cases hl : F.limitTable.lookup n with
     | none => rw [hl] at this; simp at this
     | some v => rw [hl] at this; simpa using this
-  simp only [Limits.le, Limits.uniform, Facts.lim, limitsOf, Bool.and_eq_true]
+  simp only [Limits.le, Limits.uniform, Facts.lim, limitsOf, Bool.and_eq_true, beq_self_eq_true, and_true]
   refine ⟨⟨⟨⟨⟨⟨⟨⟨?_, ?_⟩, ?_⟩, ?_⟩, ?_⟩, ?_⟩, ?_⟩, ?_⟩, ?_⟩
   · exact decide_eq_true (hn "maxlevel" (by decide))
   · exact decide_eq_true (hn "maxtuple" (by decide))
